@@ -1,0 +1,13 @@
+//go:build verif
+
+package quicstream
+
+import (
+	"context"
+	"io"
+)
+
+// ReadPrefixVerif exports readPrefix (the first read of PrefixHandler.Handler) to the verification harness.
+func ReadPrefixVerif(ctx context.Context, r io.Reader) (HandlerPrefix, error) {
+	return readPrefix(ctx, r)
+}
